@@ -117,7 +117,7 @@ def replay_payload(pid, payload):
 
 VBASE = {"Scenes": {1}, "Slots": {1, 2}, "Confs": {900, 800}, "Cids": {0}, "Metric": "iou", "Thr": 300, "MinConf": 50,
          "MaxIdle": 2, "H": 2, "NShards": 2, "Feats": {1, 2, 3}, "Quals": {30, 70, 90}, "MaxObs": 2, "MinTrackLen": 1,
-         "MinVotes": 1, "QUse": 50, "QCollect": 60, "VisThr": 35, "OwnUse": 0, "OwnCollect": 0, "Periods": {0}, "MaxDets": 2, "Sim": 0,
+         "MinVotes": 1, "QUse": 50, "QCollect": 60, "VisThr": 35, "OwnUse": 0, "OwnCollect": 0, "MinArea": 0, "VisKind": "euclid", "Periods": {0}, "MaxDets": 2, "Sim": 0,
          "Kind": "simple", "LifecycleOps": False}
 
 
@@ -137,7 +137,7 @@ def replay_visual(chk, name, r, c, kind, shards, focus, nt_key, voters=2, stride
     args = vh_args(c, kind, shards, focus, voters) + ["--max-obs", str(c["MaxObs"]), "--min-track-len", str(c["MinTrackLen"]),
             "--min-votes", str(c["MinVotes"]), "--q-use", str(c["QUse"] / 100.0), "--q-collect", str(c["QCollect"] / 100.0),
             "--vis-thr", str(c["VisThr"] / 10.0), "--own-use", str(c["OwnUse"] / 100.0),
-            "--own-collect", str(c["OwnCollect"] / 100.0)] + list(extra)
+            "--own-collect", str(c["OwnCollect"] / 100.0), "--min-area", str(c["MinArea"]), "--vis-kind", c["VisKind"]] + list(extra)
     rep = vlib.run_vh(args, [r.out], stride=stride)
     rep["nontrivial"] = rep["counters"].get(nt_key, 0)
     chk.add_report(f"{name}:{kind}:shards={shards}", rep)
